@@ -466,6 +466,17 @@ def r13(ctx, rep):
         ok = allowed in order and order.index(allowed) < order.index("Windowed")
         rep.check(ok, f"complexity:inputs-of:{mine}", f"a compute of complexity {mine} may inline inputs up to `{allowed}`: SQL does not allow a window function or an aggregate inside the argument of "
                   f"another (`SUM(RANK() OVER ())`), so the limit must be below Windowed", file=f["file"], line=m["l"], fn=f["path"])
+    # (a') can_materialize: a compute is inlined only if its complexity is at most the MINIMUM any consumer allows
+    cm = syn.fn("anchor::can_materialize", crate="prqlc")
+    locs = {show(n["pat"]): n["init"] for n in cm["body"]["s"] if n.get("k") == "local" and n.get("init") is not None}
+    req = locs.get("required")
+    fold = [n for n in walk(req)] if req is not None else []
+    okf = any(n.get("k") == "mcall" and n["m"] == "fold" and n["a"] and show(n["a"][0]) == "Complexity::highest()" and "Complexity::min(c, r.max_complexity)" in show(n["a"][1], maxdepth=8) for n in fold)
+    okfilter = any(n.get("k") == "mcall" and n["m"] == "filter" and "r.col == compute.id" in show(n["a"][0], maxdepth=8) for n in fold)
+    rep.check(okf and okfilter, "complexity:min-over-consumers", "`required` must be the minimum of max_complexity over the requirements OF THIS COLUMN, starting from the highest complexity",
+              file=cm["file"], line=cm["l"], fn=cm["path"])
+    rep.check(show(locs.get("can_materialize")) == "(complexity <= required)" or show(locs.get("can_materialize")) == "complexity <= required", "complexity:compare",
+              f"a compute may be inlined only when `complexity <= required`; found `{show(locs.get('can_materialize'))}`", file=cm["file"], line=cm["l"], fn=cm["path"])
     # (b) static_eval_case: the list that is tested for "only a literal-true branch is left" is the list that is emitted
     c = syn.fn("static_eval::static_eval_case", crate="prqlc")
     emitted = None
